@@ -8,7 +8,7 @@ Reusable facts about `Flow`, `Stream` and the loops of `SerGeneric.lean`:
 * every `Flow.*frame*` function is an optional flush (`Flow.IsCut`);
 * every stream operation keeps class, options, logical type, flow kind and frame size
   (`Stream.Keeps`);
-* the rows handed out do not depend on the flow (`Sim`, `PSim`, `RunSim`, `streamFrames_runSim`);
+* the rows handed out do not depend on the flow (`FlowSim`, `PSim`, `RunSim`, `streamFrames_runSim`);
 * frames are never empty (`streamFrames_frames_ne_nil`);
 * structure lemmas for `stmtLoop`, `graphsLoop`, `epilogue`.
 -/
@@ -111,18 +111,18 @@ theorem Stream.Keeps.trans {a b c : Stream} (h₁ : a.Keeps b) (h₂ : b.Keeps c
    h₂.kind.trans h₁.kind, h₂.frameSize.trans h₁.frameSize⟩
 
 /-- Two streams that differ at most in their flow. -/
-def Sim (s₁ s₂ : Stream) : Prop :=
+def FlowSim (s₁ s₂ : Stream) : Prop :=
   s₁.cls = s₂.cls ∧ s₁.opts = s₂.opts ∧ s₁.enc = s₂.enc ∧ s₁.enrolled = s₂.enrolled ∧
     s₁.logicalType = s₂.logicalType
 
-theorem Sim.refl (s : Stream) : Sim s s := ⟨rfl, rfl, rfl, rfl, rfl⟩
+theorem FlowSim.refl (s : Stream) : FlowSim s s := ⟨rfl, rfl, rfl, rfl, rfl⟩
 
 /-- Two streams that differ at most in their flow and that, together with the rows `A₁` / `A₂`
     already handed out, have seen the same row sequence. -/
 def PSim (A₁ : List Row) (s₁ : Stream) (A₂ : List Row) (s₂ : Stream) : Prop :=
-  Sim s₁ s₂ ∧ A₁ ++ s₁.flow.rows = A₂ ++ s₂.flow.rows
+  FlowSim s₁ s₂ ∧ A₁ ++ s₁.flow.rows = A₂ ++ s₂.flow.rows
 
-theorem PSim.sim {A₁ A₂ s₁ s₂} (h : PSim A₁ s₁ A₂ s₂) : Sim s₁ s₂ := h.1
+theorem PSim.sim {A₁ A₂ s₁ s₂} (h : PSim A₁ s₁ A₂ s₂) : FlowSim s₁ s₂ := h.1
 
 theorem PSim.pushRows {A₁ A₂ s₁ s₂} (h : PSim A₁ s₁ A₂ s₂) (rows : List Row) :
     PSim A₁ (s₁.pushRows rows) A₂ (s₂.pushRows rows) := by
@@ -374,7 +374,7 @@ theorem Stream.enroll_enrolled (s : Stream) : s.enroll.enrolled = true := by
   · assumption
   · rfl
 
-theorem Stream.optionsRow_congr {s₁ s₂ : Stream} (h : Sim s₁ s₂) : s₁.optionsRow = s₂.optionsRow := by
+theorem Stream.optionsRow_congr {s₁ s₂ : Stream} (h : FlowSim s₁ s₂) : s₁.optionsRow = s₂.optionsRow := by
   obtain ⟨h1, h2, _, _, h5⟩ := h
   simp only [Stream.optionsRow, h1, h2, h5]
 
@@ -836,7 +836,7 @@ theorem classLoop_keeps (c : StreamClass) (r : Run) (ts : List (List Term)) :
     at most in their flow object (class, frame size) and start with the same pending rows produce
     the same row sequence (frames concatenated, then whatever is left in the flow), the same
     encoder state and the same outcome. -/
-theorem streamFrames_runSim {s₁ s₂ : Stream} (h : Sim s₁ s₂) (hr : s₁.flow.rows = s₂.flow.rows)
+theorem streamFrames_runSim {s₁ s₂ : Stream} (h : FlowSim s₁ s₂) (hr : s₁.flow.rows = s₂.flow.rows)
     (d : SerData) : RunSim (streamFrames s₁ d) (streamFrames s₂ d) := by
   have h0 : PSim [] s₁ [] s₂ := ⟨h, by simpa using hr⟩
   obtain ⟨hp, he⟩ := h0.prologue d
